@@ -107,14 +107,26 @@ Spec == Init /\ [][Next]_vars
 
 Expected == Resolve(set, n, mode)
 
+\* A message set is also a SEARCH key and as such may sit under NOT, inside OR or in a parenthesised key list:
+\* it denotes the same messages there (NOT: the others of the view), and a set that is BAD is BAD at any depth.
+NestedForms == {"paren", "or", "notnot", "not"}
+InSearch(form, e, size) ==
+  IF e.res = "BAD" THEN Bad
+  ELSE [res |-> "OK", pos |-> IF form = "not" THEN (1..size) \ e.pos ELSE e.pos, judged |-> e.judged]
+
 PrintCase ==
-  Emit => PrintT(ToJson([n |-> n, mode |-> mode, set |-> set, uids |-> Uids(n), exp |-> Expected]))
+  Emit => PrintT(ToJson([n |-> n, mode |-> mode, set |-> set, uids |-> Uids(n), exp |-> Expected,
+                         nested |-> [f \in NestedForms |-> InSearch(f, Expected, n)]]))
 
 -----------------------------------------------------------------------------
 (* Properties of the resolution function itself (the design), checked on every case *)
 
 \* never a position outside the view
-InsideView == Expected.pos \subseteq 1..n
+InsideView == Expected.pos \subseteq 1..n /\ \A f \in NestedForms : InSearch(f, Expected, n).pos \subseteq 1..n
+\* nesting never turns a refused set into an accepted one, and double negation is the identity
+NestingKeepsBad == \A f \in NestedForms : (Expected.res = "BAD") <=> (InSearch(f, Expected, n).res = "BAD")
+NotNotIsIdentity == Expected.res = "OK" =>
+   InSearch("not", InSearch("not", Expected, n), n).pos = InSearch("notnot", Expected, n).pos
 
 \* a number beyond the view is BAD in sequence mode whatever else the set contains
 BeyondIsBad ==
